@@ -110,6 +110,24 @@ pub fn btree_next_after<'a>(s: &'a std::collections::BTreeSet<crate::rolling::Fi
         },
 { use std::ops::Bound::{Excluded, Unbounded}; s.range((Excluded(k), Unbounded)).next() }
 
+/// R28: `it.map(f)`.  Assumed (std contract of Iterator::map): a finite well-behaved iterator stays so and the i-th item is f(i-th item of `it`).
+/// ghost: the items of the iterator a mapped iterator was built from (a name for `it.remaining()`, so that a caller's proof can speak about it)
+pub uninterp spec fn map_source<A, R>(r: &R) -> Seq<A>;
+
+#[verifier::external_body]
+pub fn iter_map<A, B, I: Iterator<Item = A>, F: Fn(A) -> B>(it: I, f: F) -> (r: impl Iterator<Item = B>)
+    requires
+        it.obeys_prophetic_iter_laws(),
+        it.decrease() is Some,
+        forall|j: int| 0 <= j < it.remaining().len() ==> call_requires(f, (#[trigger] it.remaining()[j],)),
+    ensures
+        r.obeys_prophetic_iter_laws(),
+        r.decrease() is Some,
+        r.remaining().len() == it.remaining().len(),
+        forall|j: int| 0 <= j < it.remaining().len() ==> call_ensures(f, (it.remaining()[j],), #[trigger] r.remaining()[j]),
+        map_source::<A, _>(&r) == it.remaining(),
+{ it.map(f) }
+
 /// R24: `(a..b).take_while(p).map(f)`.  Assumed (std contracts of Range<usize>, Iterator::take_while, Iterator::map): the result is a finite
 /// well-behaved iterator yielding f(a), f(a+1), .., f(k-1) where k is the first index in a..b that p rejects (k = b if there is none);
 /// p is only called on a..=k and f only on indices p accepted.  Closures are `Fn` (the repo's do not mutate their captures).
